@@ -26,6 +26,7 @@ import   "github.com/pbenner/autodiff/statistics/scalarDistribution"
 
 import . "github.com/pbenner/autodiff"
 import . "github.com/pbenner/threadpool"
+import   "github.com/pbenner/autodiff/verifhook"
 
 /* -------------------------------------------------------------------------- */
 
@@ -159,6 +160,8 @@ func (obj *NormalEstimator) Estimate(gamma ConstVector, p ThreadPool) error {
   //////////////////////////////////////////////////////////////////////////////
   if gamma == nil {
     if err := p.AddRangeJob(0, x.Dim(), g, func(i int, p ThreadPool, erf func() error) error {
+      verifhook.Yield("scalarEstimator.normal.job")
+      verifhook.Event("scalarEstimator.normal", i, p.GetThreadId())
       obj.NewObservation(x.ConstAt(i), nil, p)
       return nil
     }); err != nil {
@@ -166,12 +169,15 @@ func (obj *NormalEstimator) Estimate(gamma ConstVector, p ThreadPool) error {
     }
   } else {
     if err := p.AddRangeJob(0, x.Dim(), g, func(i int, p ThreadPool, erf func() error) error {
+      verifhook.Yield("scalarEstimator.normal.job")
+      verifhook.Event("scalarEstimator.normal", i, p.GetThreadId())
       obj.NewObservation(x.ConstAt(i), gamma.ConstAt(i), p)
       return nil
     }); err != nil {
       return err
     }
   }
+  verifhook.Yield("scalarEstimator.normal.queued")
   if err := p.Wait(g); err != nil {
     return err
   }
